@@ -15,6 +15,7 @@ def confirm(ses, v):
     if not v.get('replay'): return None
     r = v['replay']
     if r.get('kani_confirmed'): return True      # Kani ran the compiled code of the real function bit-precisely; its trace is the counterexample
+    if 'steps' not in r and r.get('kind') in PY_CONFIRM: return PY_CONFIRM[r['kind']](ses, v)
     if 'steps' not in r:
         if r.get('kind') not in SCRIPTS: return None
         r = SCRIPTS[r['kind']](r); v['replay'] = r
@@ -28,7 +29,11 @@ def confirm(ses, v):
 def replay_file(path):
     d = json.load(open(path))
     out = run_native(d['replay'])
-    print(json.dumps(out, indent=1))
+    print(json.dumps(out, indent=1)[:6000])
+    if d['replay'].get('oracle'):
+        res = (out.get('trace') or [{}])[0].get('results') or []
+        bad = [oracle_builder(i['seq'], i['outs'], tuple(d['replay']['oracle'])) for i in res]
+        out['violated'] = any(bad); print('oracle:', bad)
     if out.get('violated'):
         print('VIOLATION property=%s replay=%s' % (d['property'], path)); return 1
     return 0
@@ -110,3 +115,79 @@ def script_spec(r):
 PROTO_ASSERT = {'v3.local': True, 'v4.local': True, 'v3.public': True, 'v4.public': True}
 SCRIPTS['spec_local'] = script_spec
 SCRIPTS['spec_public'] = script_spec
+
+
+# ----------------------------------------------------------------------------- builder call sequences (C13 / C17): native search guided by the solver's finding
+import itertools as _it, datetime as _dt
+
+ALPHABET = [['set', 'exp', '2031-01-01T00:00:00Z'], ['set', 'nbf', '2020-01-01T00:00:00Z'], ['set', 'iat', '2020-01-01T00:00:00Z'], ['set', 'iss', 'me'],
+            ['set', 'a', 1], ['ack'], ['build']]
+
+
+def sequences(maxlen=4, protos_extra=()):
+    out = []
+    for n in range(0, maxlen + 1):
+        for seq in _it.product(ALPHABET, repeat=n):
+            out.append([list(o) for o in seq] + [['build']])
+    return out
+
+
+def _t(s):
+    try: return _dt.datetime.fromisoformat(s.replace('Z', '+00:00'))
+    except Exception: return None
+
+
+def oracle_builder(seq, outs, want=('c13', 'c17')):
+    """returns a description of the first violated expectation or None"""
+    count = {}; acked = False; latitude = False; i = 0; userset = set()
+    builds = [o for o in outs if 'build' in o]
+    for op in seq:
+        if op[0] == 'set':
+            count[op[1]] = count.get(op[1], 0) + 1; userset.add(op[1])
+            if op[1] == 'exp' and acked: latitude = True
+        elif op[0] == 'ack': acked = True
+        elif op[0] == 'build':
+            if i >= len(builds): return 'missing build outcome'
+            b = builds[i]; i += 1
+            dup_strict = any(c >= 2 for c in count.values())
+            is_dup_err = b['build'] == 'err' and 'DuplicateTopLevelPayloadClaim' in b.get('value', '')
+            if 'c17' in want:
+                if dup_strict and not is_dup_err: return 'build #%d does not fail although a key was supplied twice (%s)' % (i, b['build'])
+                if not dup_strict and not latitude and b['build'] != 'ok': return 'build #%d fails without a repeated key: %s' % (i, b.get('value', '')[:80])
+            if 'c13' in want and b['build'] == 'ok':
+                p = b.get('payload', '')
+                if not p.startswith('Ok('): return 'token of build #%d cannot be read back: %s' % (i, p[:80])
+                try: js = json.loads(p[3:-1])
+                except Exception: return 'payload of build #%d is not JSON' % i
+                if acked and 'exp' in js: return 'build #%d after the acknowledgement carries exp' % i
+                if not acked and 'exp' not in js: return 'build #%d carries no exp although no-expiration was not acknowledged' % i
+                if not acked and 'exp' not in userset and 'iat' not in userset and 'nbf' not in userset:
+                    e, ia, nb = _t(js.get('exp', '')), _t(js.get('iat', '')), _t(js.get('nbf', ''))
+                    if not (e and ia and nb): return 'default time claims missing or malformed in build #%d' % i
+                    if (e - ia) != _dt.timedelta(hours=1) or ia != nb: return 'defaults of build #%d: exp-iat=%s, iat %s nbf' % (i, e - ia, '==' if ia == nb else '!=')
+    return None
+
+
+def confirm_builder(ses, v, want):
+    r = v['replay']; protos = [r['proto']] if r.get('proto') else ['v4.local', 'v3.public', 'v2.local', 'v1.local', 'v3.local', 'v1.public', 'v2.public', 'v4.public']
+    seqs = sequences(int(r.get('maxlen', 4)))
+    for proto in protos:
+        for s_ in seqs:
+            if proto in ('v3.local', 'v4.local', 'v3.public', 'v4.public') and False: pass
+        script = {'steps': [{'op': 'builder_seqs', 'proto': proto, 'layer': 'prelude', 'seed': '07' * 48, 'seqs': seqs, 'out': 'B'}], 'violated_if': []}
+        out = run_native(script); ses.native_runs = getattr(ses, 'native_runs', 0) + 1
+        res = (out.get('trace') or [{}])[0].get('results')
+        if res is None: v['native'] = out; return None
+        for item in res:
+            bad = oracle_builder(item['seq'], item['outs'], want)
+            if bad:
+                v['native'] = {'proto': proto, 'sequence': item['seq'], 'observed': item['outs'], 'violated': bad}
+                v['replay'] = {'steps': [{'op': 'builder_seqs', 'proto': proto, 'layer': 'prelude', 'seed': '07' * 48, 'seqs': [item['seq']], 'out': 'B'}], 'violated_if': [],
+                               'oracle': want, 'expected_violation': bad}
+                v['what'] += ' [natively: %s %s -> %s]' % (proto, json.dumps(item['seq']), bad)
+                return True
+    return False
+
+
+PY_CONFIRM = {'c17_step': lambda ses, v: confirm_builder(ses, v, ('c17',)), 'c17_build_twice': lambda ses, v: confirm_builder(ses, v, ('c17',)),
+              'c17_dup_build': lambda ses, v: confirm_builder(ses, v, ('c17',)), 'c13': lambda ses, v: confirm_builder(ses, v, ('c13',))}
